@@ -547,3 +547,24 @@ Proof.
   exists (mkEvent 1 1 5 7 9 1000 false 0 0 false [120] [116; 46; 99] [] null_obj null_obj [] []).
   split; [apply error_witness_wf|]. vm_compute. congruence.
 Qed.
+
+(* an error event whose original name has a second dot: stored, but its row does not decode (C02-F7) *)
+Theorem unparsable_name_unreadable_proved :
+  exists e, e_valid e = false /\ decode sch_strict (enc_event e) = None
+            /\ forall en, name_one_dot en = true ->
+               decode sch_strict (enc_event (mkEvent (e_qid e) (e_part e) (e_poffs e) (e_ws e) (e_woffs e) (e_reg e) (e_sync e) (e_dev e)
+                                                  (e_syncat e) (e_valid e) (e_errstr e) en (e_errbytes e) (e_arg e) (e_unl e) (e_creates e) (e_updates e))) <> None
+               \/ 65535 < nlen en.
+Proof.
+  exists (mkEvent 1 1 5 7 9 1000 false 0 0 false [120] [116; 46; 97; 46; 98] [] null_obj null_obj [] []).
+  split; [reflexivity|]. split; [vm_compute; reflexivity|].
+  intros en H. destruct (N.leb_spec (nlen en) 65535) as [L|L]; [left|right; exact L].
+  cbn [e_qid e_part e_poffs e_ws e_woffs e_reg e_sync e_dev e_syncat e_valid e_errstr e_errname e_errbytes e_arg e_unl e_creates e_updates].
+  assert (W : wf_event sch_strict (mkEvent 1 1 5 7 9 1000 false 0 0 false [120] en [] null_obj null_obj [] [])).
+  { unfold wf_event.
+    cbn [e_qid e_part e_poffs e_ws e_woffs e_reg e_sync e_dev e_syncat e_valid e_errstr e_errname e_errbytes e_arg e_unl e_creates e_updates stored_valid andb].
+    split; [lia|]. split; [lia|]. split; [reflexivity|]. split; [reflexivity|].
+    do 5 (split; [lia|]). split; [split; reflexivity|].
+    split; [reflexivity|]. split; [|reflexivity]. rewrite (cut_str_short _ L). exact H. }
+  rewrite (decode_encode_proved _ _ W). discriminate.
+Qed.
